@@ -371,6 +371,12 @@ class Check(object):
                     "transitions": 0, "traces_validated_against_impl": 0, "tlc_runs": []}
         self.assumptions = []
         self.findings = {}  # signature -> (description, replay dict)
+        import glob
+        for old in glob.glob(os.path.join(OUT, "replays", "%s-*.json" % prop)):
+            try:
+                os.unlink(old)
+            except OSError:
+                pass
         self.notes = []
 
     def add_tlc(self, name, r, constants=""):
